@@ -5259,9 +5259,9 @@ class Arc(Curve):
 
             return self._points_numpy(np.array(positions))
         except ImportError:
-            if self.start == self.end and self.sweep == 0:
-                # This is equivalent of omitting the segment
-                return [self.start] * len(positions)
+            if self.sweep == 0:
+                # Coincident endpoints omit the segment; a zero radius is the straight line (SVG F.6.2)
+                return [Point.towards(self.start, self.end, pos) for pos in positions]
 
             start_t = self.get_start_t()
             return [
@@ -5283,8 +5283,9 @@ class Arc(Curve):
 
         xy = np.empty((len(positions), 2), dtype=float)
 
-        if self.start == self.end and self.sweep == 0:
-            xy[:, 0], xy[:, 1] = self.start
+        if self.sweep == 0:
+            xy[:, 0] = np.interp(positions, [0, 1], [self.start.x, self.end.x])
+            xy[:, 1] = np.interp(positions, [0, 1], [self.start.y, self.end.y])
         else:
             t = self.get_start_t() + self.sweep * positions
 
@@ -5343,7 +5344,7 @@ class Arc(Curve):
         approximation, as for cubic Bézier curves.
         """
         if self.sweep == 0:
-            return 0
+            return Point.distance(self.start, self.end)
         if self.start == self.end and self.sweep == 0:
             # This is equivalent of omitting the segment
             return 0
@@ -5682,7 +5683,12 @@ class Arc(Curve):
         Code from: https://github.com/mathandy/svgpathtools
         """
         if self.sweep == 0:
-            return self.start.x, self.start.y, self.end.x, self.end.y
+            return (
+                min(self.start.x, self.end.x),
+                min(self.start.y, self.end.y),
+                max(self.start.x, self.end.x),
+                max(self.start.y, self.end.y),
+            )
         phi = self.get_rotation().as_radians
         if cos(phi) == 0:
             atan_x = tau / 4.0
